@@ -45,6 +45,9 @@ def parseTid (s : String) : Option Tid :=
 def resolveWord (f : Fut) (name : String) : Option Word :=
   if name = "empty" then some .empty
   else if name = "result" then some .result
+  -- the callback of an *earlier* consumer of a shared future (harness scenarios `presub=1`): the waiter's node goes on top of
+  -- it, the producer runs it after the event's callback; for the wait protocol such a word is as good as empty
+  else if name.startsWith "sub" then some .empty
   else if name.startsWith "cb" then
     (match f.word with
      | .ev => some .ev
@@ -66,6 +69,7 @@ def toLabel (s : State) (ts : List String) : Option (Option Label) :=
   | ["c", "E", "got", i, r] => some (do let i ← i.toNat?; let r ← UniqueD.parseRes r; pure (.got i r))
   | [t, "E", "invoke", i, r] =>
       some (do let t ← parseTid t; let i ← i.toNat?; let r ← UniqueD.parseRes r; pure (.invoke t i r))
+  | [_, "E", "subinv", _, _] => none
   | _ :: "E" :: _ => some none
   | [t, "A", "cnt", "fsub", _, a, "->", old] =>
       some (do
